@@ -168,6 +168,14 @@ func bankedOps(r *rng.R, spec string) []apiOp {
 				// the linear address with the same number as a window address: below 64K the two views differ there
 				la = a
 			}
+			if top := int(linTotals[spec]); top > 0x200000 && r.Chance(40) {
+				// the linear view of the 2048K machines is larger than 2 MB: a cell above $200000 is a cell of its own, not
+				// an alias of the cell 2 MB below it
+				la = 0x200000 + r.Intn(top-0x200000)
+				ops = append(ops, apiOp{name: "wl", a: la, v: 1 + r.Intn(255)}, apiOp{name: "rl", a: la}, apiOp{name: "rl", a: la - 0x200000},
+					apiOp{name: "rb", a: a})
+				continue
+			}
 			if r.Bool() {
 				ops = append(ops, apiOp{name: "wl", a: la, v: int(r.BByte())})
 			}
